@@ -312,6 +312,18 @@ pub fn check_error_classes(out: &HistoryOutcome) -> Vec<Finding> {
         if let Err((c, m)) = &r.result {
             if r.op.is_row_mutation() && !is_conflict_class(c) {
                 let key_index = out.spec.pre_ops.iter().any(|o| matches!(o, Op::CreateIndex { col: "id", .. }));
+                if c == "Panic" && key_index && out.spec.stable_row_ids {
+                    // `RecvError` is the consequence of a panic on Lance's CPU pool: attribute to the first one
+                    let first = panics_between(out.window.0, out.window.1);
+                    if first.iter().any(|l| l.contains("lance-table/src/rowids/segment.rs")) {
+                        f.push(Finding {
+                            signature: "panic:rowid-segment-mask-with-unsorted-deletions".into(),
+                            what: format!("{} died ({}) after a panic in U64Segment::mask while the deletion allow-list was built; panics in the window: {first:?}", r.op.kind(), m.chars().take(120).collect::<String>()),
+                            detail: json!({"op": r.describe(), "panics": first}),
+                        });
+                        continue;
+                    }
+                }
                 let column_rewrite_committed = out.spec.pre_ops.iter().any(|o| matches!(o, Op::MergeCol { .. }))
                     || out.results.iter().any(|x| x.result.is_ok() && matches!(x.op, Op::MergeCol { .. }));
                 if key_index
